@@ -315,7 +315,7 @@ func c17GenNonZero(c *eng.Ctx) {
 			if !ok {
 				return
 			}
-			if g, has := fields["gen"]; has {
+			if g, has := fields[kvField(c.P, "gen")]; has {
 				v, isC := eng.ConstInt(g)
 				c.Check(isC && v >= 1, "R-C17-3", f, in.Pos(), "initial kv.gen in "+f.Name(), "an opened database has a non-zero write generation (0 is the task's 'never uploaded' marker)", "gen = "+eng.ValStr(g))
 				return
